@@ -91,6 +91,11 @@ theorem peek_gen (cx : Ctx c) (k : Comp) (b : Bytes) (hv : Bytes.Valid b) :
     · simp only [csum, h.2.1, h.2.2.1, h.2.2.2.1]; omega
     · simp only [csum, h.2.1, h.2.2.1, h.2.2.2.1]
 
+theorem peek_ok (cx : Ctx c) (k : Comp) (b : Bytes) : ∃ r, peek c k b = .ok r := by
+  cases hp : peek c k b with
+  | error e => exact absurd ((peek_error_iff c k b).mp ⟨e, hp⟩) (cx.skipOk k)
+  | ok r => exact ⟨r, rfl⟩
+
 /-- the iterator never skips -/
 def PeekTriv (c : Cfg) (k : Comp) : Prop := ∀ b, peek c k b = .ok (b.slc[b.index]?, b)
 
